@@ -42,6 +42,13 @@ CLAIMED = {
         "note": "Trusted: optax/jnp operator semantics, stop_gradient, Batch field order (parsed). Not decided: float values, shapes (the (N,) vs (N,1) squeeze sites and the MR.Q encoder "
                 "roll-out loss are decided under C07/C12 by the shape engine), batch-size-1 behaviour of unqualified squeeze().",
     },
+    "C14": {
+        "technique": "static analysis: def-use + callee inlining (td_error, greedy_policy) to polynomial normal forms compared with spec expressions normalised by the same engine; syntactic write-footprint; caller role transfer through callee signatures",
+        "level": "Decides for all tables, transitions, gamma and learning rates (polynomial identity): the increment of Q-learning, SARSA, double Q-learning and Dyna-Q equals "
+                 "lr*(r + gamma*(1-d)*V_next - Q[s,a]) with the algorithm's V_next, written once at the index that is read; the successor action handed in by the callers was selected on the "
+                 "documented table at the successor row; the three identities of the Monte-Carlo fori_loop body and its bounds; Dyna-Q's replayed transitions and the row footprint of its model.",
+        "note": "Trusted: jnp .at[].add/.set, argmax, fori_loop semantics. Not decided: float values; that argmax tie-breaking matches a reference implementation.",
+    },
 }
 
 NOT_APPLICABLE = {}
